@@ -115,6 +115,9 @@ func c12(id string, op Op, ps []Pos) {
 func H_C12_step_claim_Q()      { c12("C12.step.claim", OpClaim, []Pos{{0, 0, 0}, {1, 0, 0}, {1, 1, 0}}) }
 func H_C12_step_delegate_Q()   { c12("C12.step.delegate", OpDelegate, []Pos{{0, 0, 0}, {1, 0, 0}, {1, 1, 0}}) }
 func H_C12_step_undelegate_Q() { c12("C12.step.undelegate", OpUndelegate, []Pos{{0, 0, 0}, {1, 0, 0}, {1, 1, 0}}) }
+func H_C12_step_redelegate_Q() {
+	c12("C12.step.redelegate", OpRedelegate, []Pos{{0, 0, 0}, {0, 1, 0}, {1, 1, 0}})
+}
 func H_C12_step_slash_Q() {
 	nd.Tag("slash-with-unclaimed-rewards")
 	c12("C12.step.slash", OpSlash, []Pos{{0, 0, 0}, {1, 0, 0}, {1, 1, 0}})
